@@ -33,6 +33,7 @@ MUTATORS = {
     ],
     "C03": [
         ("idiom -> alias", r"quimb/tensor/.*\.py$", r"^(\s+)(\w+) = (\w+) if inplace else \3\.copy\(\)\s*$", r"\1\2 = \3"),
+        ("derived cache not reset", r"quimb/tensor/tnag/core\.py$", r"^(\s+)self\._(site_tag_set|site_tags|site_inds|upper_inds|lower_inds) = None\s*$", None, r"^(site_tag_id|site_ind_id|upper_ind_id|lower_ind_id)$"),
         ("alias bound to other method", r"quimb/tensor/tensor_core\.py$", r"^(\s+)retag_ = functools\.partialmethod\(retag, inplace=True\)\s*$", r"\1retag_ = functools.partialmethod(reindex, inplace=True)"),
     ],
     "C04": [
